@@ -79,6 +79,12 @@ def main():
         lines = [l for l in out.splitlines() if l.startswith(("VIOLATION", "OK ", "INCONCLUSIVE", "  what", "  signature", "HARNESS"))]
         results[name] = {"property": pid, "exit": rc, "secs": round(time.time() - t0, 1), "output": lines[:4]}
         print(name, rc, lines[:2], flush=True)
+        for other in meta.get("also_check", []):
+            t0 = time.time()
+            rc2, out2 = sh(f"target/debug/vcheck {other} quick", f"{SW}/harness")
+            lines2 = [l for l in out2.splitlines() if l.startswith(("VIOLATION", "OK ", "INCONCLUSIVE", "  what", "  signature", "HARNESS"))]
+            results[name].setdefault("also", {})[other] = {"exit": rc2, "secs": round(time.time() - t0, 1), "output": lines2[:4]}
+            print(name, "also", other, rc2, lines2[:2], flush=True)
         sh("git checkout -- .", WT)
         json.dump(results, open("/verif/seeded/RESULTS.json", "w"), indent=1)
 
